@@ -6,7 +6,9 @@ CONSTANTS
   KeyLock = TRUE
   ExpiryRecheck = TRUE
   EntryApi = TRUE
+  FlushLock = TRUE
 SPECIFICATION Spec
 INVARIANT Linearizable
+INVARIANT SerialEquiv
 PROPERTY Termination
 VIEW View
